@@ -298,7 +298,7 @@ def corpus(sizes=(0, 1, 4090, 4094, 4095, 4096, 4097, 4098, 8190, 8192, 8194, 10
     # reply dialects - what another server version or a proxy may legally send: items in another order, a key answered once
     # although asked twice, a cas field nobody asked for, a blank before CR LF, an item repeated, an item nobody asked for,
     # an empty or very long VERSION, STAT values that are negative, huge, empty or contain blanks
-    for dia in ("reverse", "dedupe", "cas-always", "value-trailing-blank", "repeat-first", "unasked"):
+    for dia in ("reverse", "dedupe", "cas-always", "value-trailing-blank", "value-tab", "value-double-blank", "repeat-first", "unasked"):
         for kind in ("client", "hash"):
             out.append(S({"op": "get_many", "keys": ["a", "b", "c", "a"]}, three, dialect=[dia], kind=kind))
             out.append(S({"op": "get", "key": "b"}, three, dialect=[dia], kind=kind))
